@@ -2,6 +2,7 @@ package method_evaluator
 
 import (
 	"fmt"
+	"strings"
 	"ti/base"
 )
 
@@ -96,6 +97,21 @@ func (m *MethodEvaluator) errorResolve() error {
 	}
 
 	m.parser.ConsumeLastReturnT()
+
+	// `recv.` with nothing behind the dot yet (the user is still typing): the
+	// receiver stays the last evaluated value, it is what completion is asked for
+	if strings.TrimSpace(m.method) == "" {
+		receiverT := m.evaluatedObjectT.DeepCopy()
+
+		if m.objectT.IsIdentifierType() || receiverT.GetBeforeEvaluateCode() == "" {
+			receiverT.SetBeforeEvaluateCode(m.objectT.ToString())
+		}
+
+		m.parser.SetLastEvaluatedT(receiverT)
+
+		return nil
+	}
+
 	m.parser.SetLastEvaluatedT(base.MakeUnknown())
 
 	return nil
